@@ -30,7 +30,7 @@ static decoder_t *D;
 static int P_C08 = 1, P_C09 = 1, P_C16 = 1;
 static int TWO; /* a second decoder is alive and used between the operations of the first */
 
-static const char *G1 = "#JSGF V1.0; grammar g; public <s> = go forward ten meters;";
+static const char *G1 = "#JSGF V1.0; grammar g; public <s> = [go] [forward] [ten] [meters];"; /* every excerpt of the recording has a complete path */
 static const char *G2 = "#JSGF V1.0; grammar h; public <s> = (one | two | stop)+;";
 static const char *G_BAD = "#JSGF V1.0; grammar b; public <s> = ( go ;";
 static const char *G_UNDEF = "#JSGF V1.0; grammar u; public <s> = go <nowhere>;";
@@ -500,7 +500,13 @@ probe(decoder_t *d, char *dstream, char *dbatch, size_t n)
 {
     if (decoder_set_jsgf_string(d, G1) < 0)
         return -1;
-    /* batch mode first, straight after the history and WITHOUT resetting channel normalisation */
+    /* FIRST a whole-utterance decode whose LENGTH equals that of the history's main utterance (procA) but whose content
+     * differs: anything cached per frame count (the second-pass aligner, say) shows here, before another query replaces it */
+    static char qa[DIGN];
+    if (decoder_start_utt(d) < 0 || decoder_process_int16(d, AUD_QA, N_A, 0, 1) < 0 || decoder_end_utt(d) < 0)
+        return -9;
+    digest(d, qa, sizeof qa);
+    /* batch mode, straight after the history and WITHOUT resetting channel normalisation */
     if (decoder_start_utt(d) < 0)
         return -6;
     if (decoder_process_int16(d, AUD_P, N_P, 0, 1) < 0)
@@ -508,17 +514,11 @@ probe(decoder_t *d, char *dstream, char *dbatch, size_t n)
     if (decoder_end_utt(d) < 0)
         return -8;
     digest(d, dbatch, n);
-    /* two more whole-utterance decodes whose LENGTHS equal those of the history's utterances (procA, procB) but whose
-     * content differs: anything cached per frame count shows here */
     {
         size_t l = strlen(dbatch);
-        if (decoder_start_utt(d) < 0 || decoder_process_int16(d, AUD_QA, N_A, 0, 1) < 0 || decoder_end_utt(d) < 0)
-            return -9;
-        if (l + 8 < n) {
-            l += snprintf(dbatch + l, n - l, " || QA: ");
-            digest(d, dbatch + l, n - l);
-        }
-        l = strlen(dbatch);
+        if (l + 8 < n)
+            l += snprintf(dbatch + l, n - l, " || QA: %s", qa);
+        /* the same for the length of procB */
         if (decoder_start_utt(d) < 0 || decoder_process_int16(d, AUD_QB, N_B, 0, 1) < 0 || decoder_end_utt(d) < 0)
             return -10;
         if (l + 8 < n) {
